@@ -173,7 +173,7 @@ pub enum MinMode {
 }
 
 pub fn run_min(mode: MinMode, w: usize, m: usize, inp: &str, outp: &str, threads: usize, ctl: Option<&Arc<Controller>>) -> (Result<(), String>, Option<Vec<u8>>, Option<RunTrace>) {
-    let _ = std::fs::remove_file(outp);
+    super::oligo::prepare_output(outp);
     if let Some(c) = ctl {
         c.install();
     }
@@ -433,4 +433,35 @@ pub fn stress(ctx: &Ctx) -> Stats {
         }
     }
     st
+}
+
+/// inputs of more than 2^20 bases in total (12000..25000 records): scale effects in the shared reader /
+/// work distribution, both modes, judged with the same per-record and inversion monitors
+pub fn large(ctx: &Ctx) -> Stats {
+    let n = ctx.n(4, 30);
+    par_cases(ctx, n, |idx, st| {
+        let mut rng = Rng::keyed(ctx.seed, "c10.large", idx);
+        let m = rng.usize(5, 12);
+        let w = if idx % 3 == 2 { 0 } else { m + rng.usize(1, 12) };
+        let nrec = rng.usize(12_000, 25_000);
+        let recs: Vec<Rec> = (0..nrec)
+            .map(|i| {
+                let len = if rng.chance(1, 30) { rng.usize(0, m) } else { rng.usize(60, 150) };
+                let class = *rng.pick(&[SeqClass::Uniform, SeqClass::IsolatedN, SeqClass::TwoLetter]);
+                Rec { id: format!("L{}", i), desc: None, seq: gen_seq(&mut rng, class, len, true) }
+            })
+            .collect();
+        let total: usize = recs.iter().map(|r| r.seq.len()).sum();
+        let sc = Scratch::new(ctx, "c10L");
+        let inp = sc.write("in.fa", &ser::to_fasta(&recs, &SerOpts::plain()));
+        let mode = if idx % 2 == 0 { MinMode::M2s } else { MinMode::S2m };
+        let threads = rng.usize(1, 8);
+        st.case(true, mix(idx) ^ mix(total as u64));
+        st.class(&format!("{:?}", mode));
+        let res = run_min(mode, w, m, &inp, &sc.path("out.txt"), threads, None);
+        judge(st, mode, &res, &recs, w, m, threads, "large");
+        if idx % 3 == 0 {
+            st.sample(Json::obj().set("w", Json::u(w)).set("m", Json::u(m)).set("records", Json::u(nrec)).set("total_bases", Json::u(total)).set("mode", Json::s(format!("{:?}", mode))));
+        }
+    })
 }
